@@ -57,7 +57,7 @@ def findConvertedDb (c : Cache) (mt : String → Option Int) (gtf : String) (com
     if some m ≠ gtfM then .miss
     else
       match dbFile with
-      | none => .typeError
+      | none => .miss      -- `db_file is not None and …` (repair of audit2 C20-G5; before: os.path.exists(None) -> TypeError)
       | some db =>
         match mt db with
         | none => .miss
